@@ -70,5 +70,5 @@ CONFIG = {
     "level_text": "Coq theorems for every script of server behaviours, body kind/size, policy parameter set, attempt number and cancellation instant: each send makes between 1 and MaxRetry+1 attempts; every pause GenericPolicy.Retry computes and every pause the transport makes lies in [MinWait, MaxWait] (Retry-After on 429 honoured within them); a non-retryable answer is returned after exactly one attempt; on every attempt of the retry transport and of the auth client's re-send the registry receives exactly the prefix it reads of the complete original body (the whole body when it reads to the end); a body without a working GetBody is sent once and the call ends with that answer (transport) or the rewind error (auth client); no attempt starts after the context ended and a context ending during a pause ends the call with the context's error at that instant; ExponentialBackoff is total on the current source (refuted with a witness for the original source, defect F7, fixed). The model is tied to the code by regenerated constants (DefaultPolicy numbers, DefaultPredicate status branch, jitter guard), by a correspondence run of real retry.Transport / auth.Client / Repository manifest push over a scripted transport under synctest's fake clock (exact attempt instants, per-attempt received bytes), and by an independent oracle.",
     "level_note": "float64 arithmetic and the random jitter of ExponentialBackoff are modelled with exact rationals and an acceptor with rounding allowance; auth client modelled only as far as re-sending goes (cold cache, warm Bearer cache); net/http client plumbing, strconv.ParseInt and synctest are trusted/hand-modelled (see assumptions)",
     "technique": "machine-checked proof in Coq (loop invariants over the retry loop as a transition function; universal statements over policies, scripts, bodies, cancellation instants) + translator-regenerated constants/decision branch + model/implementation correspondence under testing/synctest fake time + independent oracle",
-    "explanation": "theorems about Model/Retry.v (GenericPolicy.Retry, DefaultPredicate, ExponentialBackoff, Transport.RoundTrip loop, auth.Client.Do re-send, manifest push buffering); harness: exhaustive behaviour sequences (length <= 3 quick / 5 thorough) x body kinds x both stacks, every odd cancellation instant of small scripts, random scripts with partial body reads, latencies, Retry-After values, GetBody failures, bodies up to 1 MiB (oracle only), manifest pushes with one-shot readers, and a sweep of policy decision points (attempt 0..80, backoff, factor, jitter incl. 0/negative/tiny, bounds incl. extreme, Retry-After incl. huge/garbage); oracle clauses: body-truncated, too-many-attempts, pause-bounds, nonretryable-retried, oneshot-resent, cancel-ignored/late/result, wrong-result, backoff-panic, maxretry-ignored, retry-after",
+    "explanation": "theorems about Model/Retry.v (GenericPolicy.Retry, DefaultPredicate, ExponentialBackoff, Transport.RoundTrip loop as a transition function, auth.Client.Do re-sends for a cold and a warm Bearer token cache, manifest push buffering); harness under testing/synctest fake time: exhaustive behaviour sequences (length <= 3 quick / 5 thorough) x body kinds x three stacks, every odd cancellation instant of small scripts (cancel and deadline), random scripts with partial body reads, latencies, Retry-After values, GetBody failures, unknown Content-Length, several methods, preset Authorization, bodies up to 1 MiB (oracle only), retry.DefaultPolicy end to end (oracle only), manifest pushes with one-shot readers through auth and plain clients, and a sweep of policy decision points (attempt 0..80, backoff, factor, jitter incl. 0/negative/tiny, bounds incl. extreme, Retry-After incl. huge/garbage) judged by an acceptor proved complete for the model; oracle clauses: body-truncated, too-many-attempts, pause-bounds, nonretryable-retried, oneshot-resent, cancel-ignored/late/result, wrong-result, backoff-panic, maxretry-ignored, retry-after",
 }
